@@ -37,14 +37,15 @@ inline std::string dump(const Map& m)
 inline std::string dumpShared(const Map& m)
 {
 	Map c = m; c.tileGroups.clear();
-	return dump(c);
+	return dump(c).substr(5);   // without version tag and saved-game flag: C07 names dimensions, tiles, clip rectangle, sources, mappings, terrain types
+
 }
 
 // does the parsed map hold exactly what the reference map describes? returns "" or the first difference
 inline std::string compare(const Map& m, const ref::RMap& r, bool withGroups = true)
 {
-	if (m.GetVersionTag() != r.tag) return "version tag " + std::to_string(m.GetVersionTag());
-	if (m.IsSavedGame() != (r.savedGame != 0)) return "saved-game flag";
+	if (withGroups && m.GetVersionTag() != r.tag) return "version tag " + std::to_string(m.GetVersionTag());
+	if (withGroups && m.IsSavedGame() != (r.savedGame != 0)) return "saved-game flag";   // (the shared comparison of C07 leaves tag and flag out)
 	if (m.WidthInTiles() != r.width()) return "width " + std::to_string(m.WidthInTiles());
 	if (m.HeightInTiles() != r.height) return "height " + std::to_string(m.HeightInTiles());
 	if (m.tiles.size() != r.tiles.size() || m.TileCount() != r.tiles.size()) return "tile count " + std::to_string(m.tiles.size());
@@ -113,6 +114,9 @@ inline ref::RMap makeMap(const std::vector<int>& c)
 	}
 	m.undocumented = c[10] == 0 ? (m.groups.empty() ? 0 : uint32_t(m.groups.size() - 1)) : c[10] == 1 ? 0 : 7;
 	if (c[11]) m.trailing = { 0xDE, 0xAD, 0xBE };
+	// with the default tile fill every tile names an entry of the mapping table (bits 5..15 of a tile word) where the table is
+	// not empty; the other fills (all zero, all ones) and the empty table keep tiles that name entries which are not there
+	if (c[2] == 0 && !m.mappings.empty()) for (auto& t : m.tiles) { uint32_t idx = (t >> 5) & 0x7FFu; t = (t & ~(0x7FFu << 5)) | (uint32_t(idx % m.mappings.size()) << 5); }
 	return m;
 }
 
